@@ -55,7 +55,9 @@ pub fn mig_case() -> impl Strategy<Value = MigCase> {
 		let zero_salt = cols.iter().any(|c| matches!(c.keyset, KeySet::Crafted { .. }));
 		let cfg = DbCfg { cols, zero_salt, sync_wal: true, sync_data: true };
 		let n = cfg.cols.len();
-		let commits = proptest::collection::vec(mixed_items(&cfg, 14, 70_000, 8, 3).prop_map(Op::Commit), 2..12);
+		// commits with the pipeline drained now and then, so that removals also hit entries that
+		// already live in their final index page (holes inside a page)
+		let commits = proptest::collection::vec(prop_oneof![6 => mixed_items(&cfg, 14, 70_000, 8, 3).prop_map(Op::Commit), 1 => Just(Op::Drain)], 2..14);
 		let cfg2 = cfg.clone();
 		(commits, proptest::collection::vec(any::<u8>(), n..=n), proptest::collection::vec(0u8..3, n..=n), proptest::collection::vec(any::<bool>(), n..=n), any::<bool>()).prop_map(
 			move |(mut ops, dest, dest_compression, force, overwrite)| {
@@ -63,6 +65,7 @@ pub fn mig_case() -> impl Strategy<Value = MigCase> {
 				for (i, c) in cfg2.cols.iter().enumerate() {
 					if matches!(c.keyset, KeySet::Crafted { .. }) {
 						let ids: Vec<u16> = (0..40u16).chain(256..292u16).collect();
+						ops.insert(0, Op::Drain);
 						ops.insert(
 							0,
 							Op::Commit(ids.iter().map(|id| Item { col: i as u8, ch: Change::Set(*id, VSpec { len: 20 + (*id as u32 % 7), fill: 2, seed: *id }) }).collect()),
